@@ -78,8 +78,9 @@ def run(ctx):
     # open finding D22: only collect() trims *unmatched* lines to the collect() function's headers, so it alone raises on an
     # unmatched record that lacks one of them
     def is_d22(f):
-        return (f["kind"] == "exception in one entry point only" and f.get("next") is None and f.get("fast_forward") is None
-                and str(f.get("collect", "")).startswith("InputException") and "unknown header name" in f["collect"]
+        # next()/fast_forward() agree with each other and either complete or raise later, on a matched short line
+        return (f["kind"] == "exception in one entry point only" and f.get("next") == f.get("fast_forward") and f.get("next") != f.get("collect")
+                and str(f.get("collect") or "").startswith("InputException") and "unknown header name" in f["collect"]
                 and "unmatched-mode: keep" in f["csvpath"] and "collect(" in f["csvpath"])
     d22 = [f for f in fails if is_d22(f)]
     if d22:
